@@ -2,7 +2,7 @@
 namespace PyGql.Generated.LexTables
 
 /-- `IGNORED_CHARS` (code points, source order) -/
-def ignoredChars : List Nat := [10, 13, 9, 32, 44]
+def ignoredChars : List Nat := [10, 13, 65279, 9, 32, 44]
 
 /-- `SYMBOLS`: character → token class name -/
 def symbols : List (Nat × String) := [
